@@ -21,7 +21,8 @@ use std::rc::Rc;
 pub struct Import {
     pub target: usize,
     /// 0 `import {v as v_j}`, 1 `import * as ns_j`, 2 bare `import`, 3 `export {v as r_j} from`, 4 `export * from`,
-    /// 5 `export * as sub_i_j from`, 6 `import d_j from` (default export)
+    /// 5 `export * as sub_i_j from`, 6 `import d_j from` (default export),
+    /// 7 `import {nope_i_j} from` (a name the target does not export: linking the importer fails)
     pub kind: u8,
 }
 
@@ -108,6 +109,7 @@ pub fn render(i: usize, m: &ModSpec) -> String {
             2 => s.push_str(&format!("import 'm{j}';\n")),
             3 => s.push_str(&format!("export {{v as r_{i}_{j}}} from 'm{j}';\n")),
             5 => s.push_str(&format!("export * as sub_{i}_{j} from 'm{j}';\n")),
+            7 => s.push_str(&format!("import {{nope_{i}_{j}}} from 'm{j}';\n")),
             6 => {
                 s.push_str(&format!("import d_{j} from 'm{j}';\n"));
                 reads.push_str(&format!("try {{ print('m{i} default m{j}', d_{j}); }} catch (e) {{ print('m{i} default m{j}', e.name); }}\n"));
@@ -210,6 +212,13 @@ pub fn generate(rng: &mut Rng, tier: Tier) -> Value {
             throws: if throwing && rng.chance(1, 4) { rng.range(1, 2) as u8 } else { 0 },
             dynamic: if dynamic && rng.chance(1, 3) { Some(rng.idx(n)) } else { None },
         });
+    }
+    if rng.chance(1, 10) {
+        // a link error: some module imports a name its target does not export
+        let i = rng.idx(n);
+        let target = rng.idx(n);
+        let at = rng.idx(mods[i].imports.len() + 1);
+        mods[i].imports.insert(at, Import { target, kind: 7 });
     }
     let mut faults = BTreeMap::new();
     let entry = rng.idx(n);
@@ -483,10 +492,14 @@ pub fn execute(v: &Value) -> RunReport {
     let any_dynamic = sc.mods.iter().any(|m| m.dynamic.is_some());
     let reach1 = reachable_from(&sc, sc.entry);
     let reach_all: BTreeSet<usize> = reach1.union(&reachable_from(&sc, sc.second_entry)).copied().collect();
-    let fault_reach1 = sc.faults.keys().any(|f| reach1.contains(f));
+    // link faults: modules that import a name their target does not export
+    let bad: BTreeSet<usize> = (0..n).filter(|i| sc.mods[*i].imports.iter().any(|im| im.kind == 7)).collect();
+    let bad_reach = |e: usize| reachable_from(&sc, e).iter().any(|m| bad.contains(m));
+    let any_linkfault = reach_all.iter().any(|m| bad.contains(m));
+    let fault_reach1 = sc.faults.keys().any(|f| reach1.contains(f)) || bad_reach(sc.entry);
     let any_fault = sc.faults.keys().any(|f| reach_all.contains(f)) || !sc.faults.is_empty() && any_dynamic;
     let tla_reach = reach_all.iter().any(|m| sc.mods[*m].awaits > 0);
-    let exact = !tla_reach && !any_fault && !any_dynamic;
+    let exact = !tla_reach && !any_fault && !any_dynamic && !any_linkfault;
     let what = format!(
         "[{} modules, entry m{}, second m{}, tla={tla_reach}, faults={:?}, dynamic={any_dynamic}]",
         n, sc.entry, sc.second_entry, sc.faults
@@ -595,6 +608,26 @@ pub fn execute(v: &Value) -> RunReport {
                             answered.insert(pair);
                         }
                     }
+                }
+            }
+        }
+        // bounded liveness of dynamic imports: a module that reached its end has issued its import();
+        // once the executor is idle that promise has settled one way or the other
+        for (i, m) in sc.mods.iter().enumerate() {
+            if let Some(d) = m.dynamic {
+                if all.iter().any(|l| l == &format!("end m{i}")) && !all.iter().any(|l| l.starts_with(&format!("m{i} dyn m{d}"))) {
+                    rep.violate("dynamic-import-never-settles", format!("{tag}: m{i} finished but its import('m{d}') neither fulfilled nor rejected; trace {all:?}"));
+                }
+            }
+        }
+        // a graph that cannot be linked runs nothing and reports the error, every time it is tried
+        for (j, (tr, outcome)) in o.phases.iter().enumerate() {
+            if bad_reach(o.phase_entry[j]) {
+                if !starts(tr).is_empty() {
+                    rep.violate("evaluated-despite-link-failure", format!("{tag}: phase {j} (entry m{}): modules started although an import cannot be resolved: {tr:?}; outcomes of all phases {:?}", o.phase_entry[j], o.phases.iter().map(|p| p.1.clone()).collect::<Vec<_>>()));
+                }
+                if !outcome.starts_with("rejected:") {
+                    rep.violate("link-error-not-reported", format!("{tag}: phase {j} (entry m{}): outcome {outcome:?} although an import cannot be resolved", o.phase_entry[j]));
                 }
             }
         }
@@ -771,7 +804,7 @@ pub const PROP: Prop = Prop {
     generate,
     execute,
     shrink,
-    rule: "one run = (1 of 4) one of 1123 committed graphs (same generator, fault-free, half of them forced to contain top-level await) whose per-phase traces and outcomes were fixed at authoring time — the exact oracle for asynchronous graphs, where the synchronous reference model stops —, or (3 of 4) one directed module graph over 1..6 (quick) / 1..8 (thorough) modules (seeded edges biased to cycles, self-imports and shared leaves; named, namespace, default, bare, re-export, namespace re-export and export-star imports, a name that is ambiguous through two star paths, imported bindings read again from a promise job after everything ran; optional top-level await of three kinds; optional throw before/after the awaits; optional dynamic import(); injected fetch or parse errors on 1..2 modules in 1 run of 4, permanent or hitting only the first 1..2 requests), an entry module, a re-evaluation of it and a second entry (with faults: three further attempts, so that a load that failed is retried and, once the transient faults are used up, gets through), executed under 3 (quick) / 5 (thorough) loader schedules (latency 0..5 polls per request, seeded poll order of pending load jobs) on the stub executor and on the real SimpleJobExecutor; non-trivial = a loader delay, poll reorder, loader fault or module throw fired; distinct = distinct (graph shape signature, latencies, delays and reorders fired)",
+    rule: "one run = (1 of 4) one of 1123 committed graphs (same generator, fault-free, half of them forced to contain top-level await) whose per-phase traces and outcomes were fixed at authoring time — the exact oracle for asynchronous graphs, where the synchronous reference model stops —, or (3 of 4) one directed module graph over 1..6 (quick) / 1..8 (thorough) modules (seeded edges biased to cycles, self-imports and shared leaves; named, namespace, default, bare, re-export, namespace re-export and export-star imports, a name that is ambiguous through two star paths, imported bindings read again from a promise job after everything ran; optional top-level await of three kinds; optional throw before/after the awaits; optional dynamic import(); injected fetch or parse errors on 1..2 modules in 1 run of 4, permanent or hitting only the first 1..2 requests), in 1 graph of 10 an import of a name the target does not export (link error); an entry module, a re-evaluation of it and a second entry (with faults: three further attempts, so that a load that failed is retried and, once the transient faults are used up, gets through), executed under 3 (quick) / 5 (thorough) loader schedules (latency 0..5 polls per request, seeded poll order of pending load jobs) on the stub executor and on the real SimpleJobExecutor; non-trivial = a loader delay, poll reorder, loader fault or module throw fired; distinct = distinct (graph shape signature, latencies, delays and reorders fired)",
     real: &["module records: parse, load, link, evaluate incl. async evaluation and cycles", "namespace objects, live bindings", "SimpleJobExecutor in one schedule per run", "Module::parse (called by the stub loader)"],
     stub: &["SimLoader (host side of the ModuleLoader seam: latency, completion order, fetch/parse faults)", "SimExecutor (seeded poll order of pending load jobs)", "reference model of InnerModuleEvaluation for synchronous graphs"],
     assumptions: &[
